@@ -86,6 +86,21 @@ Theorem C12_found_empty : forall line, pat_search REps line = true.
 Proof. exact re_search_eps. Qed.
 Print Assumptions C12_found_empty.
 
+(* the extent of a raw text block, line by line: it holds the lines from the region's first line up to and including the first
+   line on which the end pattern is found -- no earlier line of the block contains it -- or every remaining line if none does;
+   the rest of the input is handed back untouched *)
+Theorem C12_block_extent : forall p s,
+  raw_block (pat_search p) s =
+    (concat (take_until (pat_search p) (split_lines s)), concat (drop_until (pat_search p) (split_lines s))) /\
+  take_until (pat_search p) (split_lines s) ++ drop_until (pat_search p) (split_lines s) = split_lines s /\
+  ((exists pre l, take_until (pat_search p) (split_lines s) = pre ++ [l] /\ pat_search p l = true /\
+                  Forall (fun x => pat_search p x = false) pre) \/
+   (take_until (pat_search p) (split_lines s) = split_lines s /\ Forall (fun x => pat_search p x = false) (split_lines s))).
+Proof.
+  intros p s. split; [apply raw_block_spec|]. split; [apply take_drop_until|apply take_until_shape].
+Qed.
+Print Assumptions C12_block_extent.
+
 (* the quantifiers mean what Python's mean: a* is any number of rounds of a, a{m,n} between m and n rounds (+ ? are a{1,}, a{0,1}) *)
 Theorem C12_pattern_star : forall line a i j, M line (RStar a) i j <-> exists k, Mpow line a k i j.
 Proof. exact re_star_spec. Qed.
